@@ -396,7 +396,8 @@ def fee_witness(path, b, v):
     "nearest unit (lower neighbour tolerated at an exact tie)"; cond states that they are such values for the oracle's own numerators."""
     if not b['hasfee']:
         return z3.IntVal(0), z3.IntVal(0), z3.BoolVal(True), []
-    rs = [t[2] for t in path.world.ties]
+    step_ties = path.world.ties[getattr(path.world, 'ties_mark', 0):]          # this request's own roundings (a history carries earlier ones too)
+    rs = [t[2] for t in step_ties]
     Q = b['quote']
 
     def is_nearest(t, x):
@@ -407,7 +408,7 @@ def fee_witness(path, b, v):
             return direct
         a_c, f_c, q_c = fac
         return z3.Or(z3.And(f_c == b['fee'], q_c == Q, a_c == x), direct)
-    ts = path.world.ties
+    ts = step_ties
     if len(ts) >= 2:
         r1, r2 = rs[0], rs[1]
         return r1, r2, z3.And(is_nearest(ts[0], b['rem_q'] - v['g']), z3.Implies(v['improved'], is_nearest(ts[1], b['rem_q'] - v['g2']))), []
